@@ -183,7 +183,7 @@ theorem shift_bounds_same_samples (bounds : List (Nat × Nat)) (b : Nat × Nat) 
 
 /-! ### clip -/
 
-theorem wrapInt32_id (x : Int) (h0 : 0 ≤ x) (h1 : x < 2147483648) : wrapInt 32 x = x := by
+theorem wrapInt32_id_nonneg (x : Int) (h0 : 0 ≤ x) (h1 : x < 2147483648) : wrapInt 32 x = x := by
   unfold wrapInt
   have hp : (2 : Int) ^ 32 = 4294967296 := by decide
   simp only [hp]
@@ -197,7 +197,7 @@ theorem clip_index_in_table (v : Int) (p : Nat) (_hv : -(2 ^ 31 : Int) ≤ v ∧
   generalize v / 2 ^ p = q
   have hs0 : 0 ≤ max (-640) (min 639 q) + 640 := by omega
   have hs1 : max (-640) (min 639 q) + 640 ≤ 1279 := by omega
-  rw [wrapInt32_id _ hs0 (by omega)]
+  rw [wrapInt32_id_nonneg _ hs0 (by omega)]
   refine ⟨?_, hp, by decide, by decide, by omega, by omega⟩
   omega
 
